@@ -389,6 +389,21 @@ Fixpoint strlen_from (fuel : nat) (l : list Z) : option nat :=
   | x :: r => if x =? 0 then Some O else match fuel with O => None | S f => option_map S (strlen_from f r) end
   end.
 
+(* ---- the environment of the option front end (valget/getopts.cpp), read by the primitives below ----
+   "@getopt": what getopt_long delivers, one record per call: [code; 0] (no argument) or [code; n+1; n bytes] (argument);
+              at the end of the stream it returns -1.  Each argument becomes a NUL-terminated object "@arg<pos>".
+   "@fopen":  one byte per fopen call: 0 = NULL, otherwise a stream "@stream<pos>". *)
+Fixpoint strtol_digits (fuel : nat) (l : list Z) (acc : Z) (n : nat) : Z * nat :=
+  match fuel, l with
+  | S f, c :: r => if (48 <=? c) && (c <=? 57) then strtol_digits f r (Z.min (acc * 10 + (c - 48)) (2 ^ 63)) (S n) else (acc, n)
+  | _, _ => (acc, n)
+  end.
+Fixpoint skip_spaces (fuel : nat) (l : list Z) (n : nat) : list Z * nat :=
+  match fuel, l with
+  | S f, c :: r => if (c =? 32) || ((9 <=? c) && (c <=? 13)) then skip_spaces f r (S n) else (l, n)
+  | _, _ => (l, n)
+  end.
+
 (* primitives: the C library calls the translated routines make *)
 Definition do_prim (s : state) (name : string) (vs : list value) : res (option value * state) :=
   if String.eqb name "fread" then
@@ -514,6 +529,94 @@ Definition do_prim (s : state) (name : string) (vs : list value) : res (option v
         | None => UB "strlen: no such object"
         end
     | _ => UB "strlen: arguments"
+    end
+  else if String.eqb name "getopt_long" then
+    match vs with
+    | [] =>
+        match lget (files s) "@getopt" with
+        | Some f =>
+            match nth_error (cf_data f) (cf_pos f), nth_error (cf_data f) (S (cf_pos f)) with
+            | Some code, Some len =>
+                let f' := {| cf_data := cf_data f; cf_pos := cf_pos f + 2 + Z.to_nat (Z.max 0 (len - 1)); cf_eof := cf_eof f |} in
+                let s1 := with_files s (lset (files s) "@getopt" f') in
+                if len =? 0 then Ok (Some (VInt code), with_ptrs s1 (lset (ptrs s1) "optarg" VNull))
+                else
+                  let arg := firstn (Z.to_nat (len - 1)) (skipn (cf_pos f + 2) (cf_data f)) in
+                  if negb (Z.of_nat (List.length arg) =? len - 1) then UB "getopt_long: truncated record" else
+                  let name := ("@arg" ++ nat_string (cf_pos f))%string in
+                  let s2 := with_mem s1 (mset (mem s1) name {| o_ty := U8; o_cells := arg ++ [0] |}) in
+                  Ok (Some (VInt code), with_ptrs s2 (lset (ptrs s2) "optarg" (VPtr name 0)))
+            | _, _ => Ok (Some (VInt (-1)), s)
+            end
+        | None => UB "getopt_long: no option stream"
+        end
+    | _ => UB "getopt_long: arguments"
+    end
+  else if String.eqb name "fopen" then
+    match vs with
+    | [_] =>
+        match lget (files s) "@fopen" with
+        | Some f =>
+            match nth_error (cf_data f) (cf_pos f) with
+            | Some b =>
+                let s1 := with_files s (lset (files s) "@fopen" {| cf_data := cf_data f; cf_pos := S (cf_pos f); cf_eof := cf_eof f |}) in
+                Ok (Some (if b =? 0 then VNull else VPtr ("@stream" ++ nat_string (cf_pos f))%string 0), s1)
+            | None => UB "fopen: the environment has no answer left"
+            end
+        | None => UB "fopen: no environment"
+        end
+    | _ => UB "fopen: arguments"
+    end
+  else if String.eqb name "snprintf" then
+    (* snprintf(dst, n, "%s.wenc", src): at most n-1 characters and a NUL are written; returns strlen(src) + 5 *)
+    match vs with
+    | [VPtr od offd; VInt n; VPtr os offs] =>
+        match mget (mem s) od, mget (mem s) os with
+        | Some bd, Some bs =>
+            if negb (ity_bytes (o_ty bd) =? 1) || negb (ity_bytes (o_ty bs) =? 1) || (offd <? 0) || (offs <? 0) || (n <? 1)
+               || (Z.of_nat (List.length (o_cells bs)) <? offs) || (Z.of_nat (List.length (o_cells bd)) <? offd + n)
+            then UB "snprintf: objects" else
+            match strlen_from (List.length (o_cells bs)) (skipn (Z.to_nat offs) (o_cells bs)) with
+            | Some k =>
+                let full := firstn k (skipn (Z.to_nat offs) (o_cells bs)) ++ [46; 119; 101; 110; 99] in
+                let out := firstn (Z.to_nat (n - 1)) full ++ [0] in
+                Ok (Some (VInt (Z.of_nat (List.length full))),
+                    with_mem s (mset (mem s) od {| o_ty := o_ty bd; o_cells := upd_range (Z.to_nat offd) out (o_cells bd) |}))
+            | None => UB "snprintf: source not terminated"
+            end
+        | _, _ => UB "snprintf: no such object"
+        end
+    | _ => UB "snprintf: arguments"
+    end
+  else if String.eqb name "strtol" then
+    (* strtol(text, &end, 10): white space, optional sign, decimal digits; *end = first unparsed character (= text when no digit);
+       saturating at 2^63 *)
+    match vs with
+    | [VPtr o off; VPtr oe offe; VInt 10] =>
+        match mget (mem s) o with
+        | Some ob =>
+            if negb (ity_bytes (o_ty ob) =? 1) || (off <? 0) || (Z.of_nat (List.length (o_cells ob)) <? off) then UB "strtol: object" else
+            let l0 := skipn (Z.to_nat off) (o_cells ob) in
+            let '(l1, nsp) := skip_spaces (List.length l0) l0 0 in
+            let '(neg, l2, nsg) := match l1 with
+                                   | c :: r => if c =? 45 then (true, r, 1%nat) else if c =? 43 then (false, r, 1%nat) else (false, l1, 0%nat)
+                                   | [] => (false, l1, 0%nat)
+                                   end in
+            let '(v, nd) := strtol_digits (List.length l2) l2 0 0 in
+            let consumed := if Nat.eqb nd 0 then 0%nat else (nsp + nsg + nd)%nat in
+            let value := if Nat.eqb nd 0 then 0 else if neg then - v else Z.min v (2 ^ 63 - 1) in
+            Ok (Some (VInt value), with_ptrs s (lset (ptrs s) (ptr_key oe offe) (VPtr o (off + Z.of_nat consumed))))
+        | None => UB "strtol: no such object"
+        end
+    | _ => UB "strtol: arguments"
+    end
+  else if String.eqb name "file_size" then Ok (Some (VInt 0), s)
+  else if String.eqb name "rand" then Ok (Some (VInt 0), s)
+  else if String.eqb name "time" then Ok (Some (VInt 0), s)
+  else if String.eqb name "exit" then
+    match vs with
+    | [VInt c] => UB ("exit:" ++ z_string c)%string
+    | _ => UB "exit: arguments"
     end
   else UB ("unknown primitive " ++ name)%string.
 
